@@ -25,8 +25,11 @@ def replay(rec, ctx):
     import numpy as np
     from cherab.tools.raytransfer import pipelines as P
     dim, kind = ctx["dim"] if ctx else rec["dim"], ctx["kind"] if ctx else rec["kind"]
-    pipe = {0: P.RayTransferPipeline0D, 1: P.RayTransferPipeline1D, 2: P.RayTransferPipeline2D}[dim](kind=kind)
     h = rec["h"]
+    # the kind is accepted in any letter case ('Power' is what BolometerFoil.units says): spelled in lower case, capitalised or in
+    # capitals depending on the history length - the pipeline is the same
+    spelled = (kind, kind.capitalize(), kind.upper())[len(h) % 3]
+    pipe = {0: P.RayTransferPipeline0D, 1: P.RayTransferPipeline1D, 2: P.RayTransferPipeline2D}[dim](kind=spelled)
     sens = float(rec["sens"])
     viol = []
     last = h[-1]["op"]
